@@ -3,6 +3,6 @@
 set -e
 HERE="$(cd "$(dirname "$0")" && pwd)"
 cd "$HERE"
-PYTHONPATH="$HERE/harness:/repo" /venv/bin/python -W ignore harness/translate.py
+PYTHONPATH="$HERE/harness:${VERIF_REPO:-/repo}" /venv/bin/python -W ignore harness/translate.py
 cd lean
 lake build CLModel cldriver
